@@ -31,6 +31,7 @@ MergeHeaps ==
    H2b(MA0, MBs, "dense", "dense", "mrg:other-smd-permuted"), H2b(MA0, MD0, "dense", "dense", "mrg:disjoint"),
    H2b(MA, MDm, "dense", "csr_zeros", "mrg:disjoint-md"), H2b(MA, MN, "csr_zeros", "dense", "mrg:nested"),
    H2b(MN, MA, "dense", "csr_unsorted", "mrg:nested-rev"), H2b(MA0, MA0, "dense", "csc", "mrg:identical"),
+   H2b(MAo, MB0, "dense", "dense", "mrg:recv-obs-md-only"), H2b(MAs, MBp, "csr", "dense", "mrg:recv-samp-md-only"),
    H3(MA0, MB0, MC0, "mrg:three"), H3(MD0, MA0, MBp, "mrg:three-b")}
 ConcatHeaps ==
   {H2b(MA, ME, "dense", "csr_unsorted", "cat:obs-disjoint-permuted"), H2b(MA, MD0, "csc", "dense", "cat:disjoint-both"),
